@@ -7,7 +7,7 @@ import PegtlVerif.Lemmas.SemBody
 
 namespace Pegtl
 
-def plainB (s : ActionSpec) : Bool := s.throwMod == 0 && (!s.isBool || s.vetoMod == 0)
+def plainB (s : ActionSpec) : Bool := s.throwMod == 0 && (!s.isBool || s.vetoMod == 0) && s.wrap == .none
 
 def isMustB (g : Grammar) (c : Nat) : Bool :=
   match g[c]? with
@@ -41,9 +41,9 @@ def wftCheck (cx : Ctx) : Bool :=
 
 theorem plainB_sound {s : ActionSpec} (h : plainB s = true) : PlainAct s := by
   simp only [plainB, Bool.and_eq_true, beq_iff_eq, Bool.or_eq_true, Bool.not_eq_true'] at h
-  exact ⟨h.1, h.2⟩
+  exact ⟨h.1.1, h.1.2, h.2⟩
 
-theorem plain_default : PlainAct ({} : ActionSpec) := ⟨rfl, Or.inl rfl⟩
+theorem plain_default : PlainAct ({} : ActionSpec) := ⟨rfl, Or.inl rfl, rfl⟩
 
 theorem isMustB_sound {g : Grammar} {c : Nat} (h : isMustB g c = true) :
     ∃ ndc c', g[c]? = some ndc ∧ ndc.kind = .must c' := by
